@@ -1,4 +1,5 @@
 import QuantemModel.Lemmas.Resample
+import QuantemModel.Lemmas.ResampleSpectral
 /-!
 C06 — binning, Fourier resampling, padding and cropping obey conservation laws.
 Theorems about `Model/Resample.lean` (the array and calibration arithmetic of
@@ -165,6 +166,59 @@ theorem resample_meta_identity (o s : Rat) (n : Nat) (hn : 0 < n) : resampleMeta
   have h1 : (n : Rat) ≠ 0 := by exact_mod_cast Nat.pos_iff_ne_zero.mp hn
   simp only [resampleMeta, div_self h1, div_one]
   ext <;> simp
+
+/-! ### Fourier resampling: the operator over ℝ (carrier = ℝ, DFT = the defining sums of
+`Core/Dft.lean`; `toC` reads the model's complex pairs as Mathlib complex numbers) -/
+
+/-- **the model computes band-limited DFT resampling**: output sample `j` of the 1-D operator is
+`(m/n)·(1/m)·Σ_{k'} Ŷ[k']·ζ_m^{k'j}` with `Ŷ[k'] = X̂[srcBin k']` (or 0) and
+`X̂[k] = Σ_i x[i]·ζ_n^{-ki}` — the dense oracle the harness evaluates on the real code. -/
+theorem resample1_formula (x : List (Cx ℝ)) (m j : ℕ) (hj : j < m) :
+    (resample1 m x).length = m ∧ vecC (resample1 m x) j = resampleC x.length m (vecC x) j :=
+  ⟨length_resample1 x m, resample1_getD x m j hj⟩
+
+/-- **the array mean is preserved**, for every input length `n ≥ 1` and output length `m ≥ 1`
+(odd or even, up or down): `Σ y / m = Σ x / n`. -/
+theorem resample_mean (x : List (Cx ℝ)) (m : ℕ) (hn : x.length ≠ 0) (hm : m ≠ 0) :
+    toC (Cx.sum (resample1 m x)) / (m : ℂ) = toC (Cx.sum x) / (x.length : ℂ) := by
+  rw [resample1_sum x m hn hm]
+  have h1 : (x.length : ℂ) ≠ 0 := by exact_mod_cast hn
+  have h2 : (m : ℂ) ≠ 0 := by exact_mod_cast hm
+  field_simp
+
+/-- **linear**: `R(a·x + y) = a·R(x) + R(y)` for complex `a` and signals of equal length. -/
+theorem resample_linear (a : Cx ℝ) (x y : List (Cx ℝ)) (m : ℕ) (h : x.length = y.length) :
+    resample1 m (List.zipWith (· + ·) (x.map (a * ·)) y)
+      = List.zipWith (· + ·) ((resample1 m x).map (a * ·)) (resample1 m y) :=
+  resample1_linear a x y m h
+
+/-- **identity when the shape is unchanged** (exact over ℝ). -/
+theorem resample_identity (x : List (Cx ℝ)) (hn : x.length ≠ 0) : resample1 x.length x = x :=
+  resample1_same x hn
+
+/-- **up-sampling then down-sampling back returns the original data**, for every complex
+signal and every `m ≥ n ≥ 1`.  (For complex data the code never takes a real part, so no
+Nyquist exclusion is needed; see `resample_roundtrip_real_partial` for what is missing for
+real input.) -/
+theorem resample_roundtrip (x : List (Cx ℝ)) (m : ℕ) (hn : 1 ≤ x.length) (hnm : x.length ≤ m) :
+    resample1 x.length (resample1 m x) = x :=
+  resample1_up_down x m hn hnm
+
+/- Full statement for real input (not proved): if every `x[i]` is real and, for even `n`, the
+Nyquist coefficient `X̂[n/2]` vanishes, then `resample1 m x` is real for `m ≥ n`, hence taking
+the real part (as `fourier_resample` does for real arrays) changes nothing and
+    realPart (resample1 n (realPart (resample1 m x))) = x.
+What is missing is the Hermitian-symmetry argument (the index map pairs `k'` with `m - k'`
+exactly when it pairs `k` with `n - k`, except at the Nyquist bin).  The implementation side
+of this clause is measured on every run (float stream, `roundtrip` predicate on Nyquist-free
+real and complex signals). -/
+/-- proved part of the real-input round trip: whenever the up-sampled signal happens to be
+real (so that `.real` is a no-op), the round trip is exact. -/
+theorem resample_roundtrip_real_partial (x : List (Cx ℝ)) (m : ℕ) (hn : 1 ≤ x.length)
+    (hnm : x.length ≤ m)
+    (hreal : (resample1 m x).map (fun z => Cx.ofReal z.re) = resample1 m x) :
+    resample1 x.length ((resample1 m x).map (fun z => Cx.ofReal z.re)) = x := by
+  rw [hreal]; exact resample1_up_down x m hn hnm
 
 /-! ### non-vacuity -/
 
